@@ -261,6 +261,12 @@ fn vp_native_response_body_end_to_end_body() {
             assert!(got == payload, "bytes(): {} of {} bytes delivered, {} body", got.len(), n, name);
             let mut sink = Vec::new(); let copied = open().write_to(&mut sink).unwrap(); cases += 1;
             assert!(sink == payload && copied == n as u64, "write_to(): {} of {} bytes, {} body", sink.len(), n, name);
+            // the text helpers read the same payload: lossy decoding of exactly these bytes (the payload is not valid UTF-8), and of a
+            // valid UTF-8 rendering of it
+            let t = open().text_utf8().unwrap_or_else(|e| panic!("text_utf8() of a {}-byte {} body: {}", n, name, e)); cases += 1;
+            assert!(t == String::from_utf8_lossy(&payload), "text_utf8(): {} chars from a {}-byte {} body, expected the lossy decoding of the payload ({} chars)", t.chars().count(), n, name, String::from_utf8_lossy(&payload).chars().count());
+            let (sp, ss) = open().split().2.text_utf8().map(|t| (t.len(), t == String::from_utf8_lossy(&payload))).unwrap_or((0, false)); cases += 1;
+            assert!(ss, "ResponseReader::text_utf8() after split(): {} bytes of text from a {}-byte {} body", sp, n, name);
             for sched in schedules {
                 let mut r = open(); let mut out = Vec::new(); let mut i = 0usize;
                 loop {
